@@ -148,8 +148,21 @@ class C03(props.Prop):
                         by_step.get((chain[i - 1], chain[i]), '?')
                         for i in range(first + 1, k + 1)
                     })
+                    shape = None
+                    if not noop:
+                        try:
+                            members = [rec.text(x['dig']).split(' ')
+                                       for x in writes[first - 1 if first else 0:k]]
+                            if len(members) >= 2 and all(
+                                    _changes_inside(members[i], members[i + 1],
+                                                    'fp')
+                                    for i in range(len(members) - 1)):
+                                shape = 'inside-fp-literal'
+                        except Exception:
+                            shape = None
                     v.violate(
                         'revisit',
+                        f'C03:revisit:cycle:{shape}' if shape else
                         f'C03:revisit:{"no-op" if noop else "cycle"}:'
                         f'{"+".join(muts)}',
                         f'adopted input #{k} equals '
@@ -179,7 +192,11 @@ class C03(props.Prop):
         rec = res.rec
         strat = spec.get('strategy')
         # (c) hanging step
-        if res.outcome == 'hang':
+        if res.outcome == 'hang' and res.hang_kind != 'jumps':
+            # real-time watchdog on a step that is merely slow (huge input):
+            # inconclusive, only the deterministic jump budget decides
+            v.aborted = 'hang-watchdog'
+        elif res.outcome == 'hang':
             sig = hang_signature(res.hang_frames)
             v.violate(
                 'hang', f'C03:hang:{sig}',
@@ -240,6 +257,44 @@ class C03(props.Prop):
             'outcome': res.outcome,
         }
         return v
+
+
+def _changes_inside(a, b, head):
+    """Do the token lists a and b differ only inside parenthesised terms
+    whose first token is ``head`` (in a and in b)?"""
+    import difflib
+
+    def enclosed(toks):
+        # for every position: is some enclosing list headed by ``head``?
+        res = []
+        stack = []
+        for i, t in enumerate(toks):
+            if t == '(':
+                nxt = toks[i + 1] if i + 1 < len(toks) else ''
+                stack.append(nxt == head)
+                res.append(any(stack[:-1]) or stack[-1])
+            elif t == ')':
+                res.append(any(stack))
+                if stack:
+                    stack.pop()
+            else:
+                res.append(any(stack))
+        return res
+
+    ea, eb = enclosed(a), enclosed(b)
+    sm = difflib.SequenceMatcher(a=a, b=b, autojunk=False)
+    changed = False
+    for tag, i1, i2, j1, j2 in sm.get_opcodes():
+        if tag == 'equal':
+            continue
+        changed = True
+        if not all(ea[i1:i2]) or not all(eb[j1:j2]):
+            return False
+        if i1 == i2 and not (i1 < len(ea) and ea[i1] or i1 > 0 and ea[i1 - 1]):
+            return False
+        if j1 == j2 and not (j1 < len(eb) and eb[j1] or j1 > 0 and eb[j1 - 1]):
+            return False
+    return changed
 
 
 def _in_ddmin(rec, w):
